@@ -669,6 +669,126 @@ fn error_cases(cnt: &Cnt, coll: &Collector) {
     }
 }
 
+/// Every constant type x every boundary literal of every number type (and a few non-numbers) supplied
+/// for one external constant. Oracle: a literal whose tag is the constant's type and whose number is in
+/// range must be accepted; a literal whose number is not a value of the constant's type must be refused;
+/// whenever a literal is accepted the program must behave like the program with that number written as a
+/// literal of the constant's type (the constant's bits and a constant expression built on it).
+fn supplied_value_menu(cnt: &Cnt, coll: &Collector) {
+    use crate::gast::ALL_INT_TYS;
+    let u_tag = |t: IntTy| match t {
+        IntTy::U8 => UnsignedNumType::U8,
+        IntTy::U16 => UnsignedNumType::U16,
+        IntTy::U32 => UnsignedNumType::U32,
+        IntTy::U64 => UnsignedNumType::U64,
+        _ => UnsignedNumType::Usize,
+    };
+    let s_tag = |t: IntTy| match t {
+        IntTy::I8 => SignedNumType::I8,
+        IntTy::I16 => SignedNumType::I16,
+        IntTy::I32 => SignedNumType::I32,
+        _ => SignedNumType::I64,
+    };
+    // (description, literal, number it denotes if any, tag type if it has one)
+    let mut menu: Vec<(String, Literal, Option<i128>, Option<IntTy>)> = vec![];
+    for t in ALL_INT_TYS {
+        let mut vals: Vec<i128> = vec![t.min() - 1, t.min(), t.min() + 1, -1, 0, 1, t.max() - 1, t.max(), t.max() + 1];
+        vals.sort();
+        vals.dedup();
+        for v in vals {
+            if t.signed() {
+                if v >= i64::MIN as i128 && v <= i64::MAX as i128 {
+                    menu.push((format!("NumSigned({v},{})", t.name()), Literal::NumSigned(v as i64, s_tag(t)), Some(v), Some(t)));
+                }
+            } else if v >= 0 && v <= u64::MAX as i128 {
+                menu.push((format!("NumUnsigned({v},{})", t.name()), Literal::NumUnsigned(v as u64, u_tag(t)), Some(v), Some(t)));
+            }
+        }
+    }
+    for v in [0i128, 1, 255, 256] {
+        menu.push((format!("NumUnsigned({v},unspecified)"), Literal::NumUnsigned(v as u64, UnsignedNumType::Unspecified), Some(v), None));
+    }
+    for v in [-129i128, -1, 0, 127, 128] {
+        menu.push((format!("NumSigned({v},unspecified)"), Literal::NumSigned(v as i64, SignedNumType::Unspecified), Some(v), None));
+    }
+    menu.push(("true".into(), Literal::True, None, None));
+    menu.push(("false".into(), Literal::False, None, None));
+    menu.push(("()".into(), Literal::Tuple(vec![]), None, None));
+    menu.push(("[true]".into(), Literal::Array(vec![Literal::True]), None, None));
+    let bits_of = |v: i128, t: IntTy| -> Vec<bool> { (0..t.bits()).rev().map(|k| (t.wrap(v) as u128 >> k) & 1 == 1).collect() };
+    for t in ALL_INT_TYS {
+        // the constant itself and a constant expression that exposes a value that is out of range
+        let src = format!("const A: {n} = P::A;\nconst B: {n} = max(A, 0{n});\npub fn main(x: {n}) -> ({n}, {n}) {{\n  (A ^ x, B)\n}}\n", n = t.name());
+        for (desc, l, num, tag) in &menu {
+            cnt.error_cases.fetch_add(1, Ordering::Relaxed);
+            let site = format!("K/supplied/{}/{}", t.name(), desc);
+            let case = json!({"kind": "consts-supplied-value", "source": src, "const": format!("P::A = {l:?}")});
+            let mut m: HashMap<String, HashMap<String, Literal>> = HashMap::new();
+            m.entry("P".into()).or_default().insert("A".into(), l.clone());
+            let must_accept = *tag == Some(t) && num.map(|v| t.fits(v)).unwrap_or(false);
+            let must_refuse = num.map(|v| !t.fits(v)).unwrap_or(true);
+            let r = catch(|| garble_lang::compile_with_constants(&src, subject::to_consts(m)));
+            match r {
+                Err(p) => coll.push(Violation::new("C12", site, "rust-panic", "", case, p)),
+                Ok(Err(e)) => {
+                    if must_accept {
+                        coll.push(Violation::new("C12", site, "well-typed-constant-refused", "", case, format!("{e:?}")));
+                    }
+                }
+                Ok(Ok(gp)) => {
+                    if must_refuse {
+                        coll.push(Violation::new("C12", site, "accepted-despite-missing-or-mistyped", "", case, format!("{l:?} is not a value of {}", t.name())));
+                        continue;
+                    }
+                    let v = num.unwrap();
+                    for x in [0i128, t.max()] {
+                        cnt.evals.fetch_add(1, Ordering::Relaxed);
+                        let real = subject::eval(&gp.circuit, &[bits_of(x, t)]);
+                        let mut exp = bits_of(v ^ t.wrap(x), t);
+                        exp.extend(bits_of(v.max(0), t));
+                        if real != RealOutcome::Value(exp.clone()) {
+                            coll.push(Violation::new("C12", site.clone(), "differs-from-literal-substitution", format!("x={x}"), case.clone(), format!("expected bits {exp:?}, got {real:?}")));
+                            break;
+                        }
+                    }
+                }
+            }
+        }
+    }
+    // bool constant
+    let src = "const A: bool = P::A;\npub fn main(x: bool) -> bool {\n  A ^ x\n}\n";
+    for (desc, l, _, _) in &menu {
+        cnt.error_cases.fetch_add(1, Ordering::Relaxed);
+        let site = format!("K/supplied/bool/{desc}");
+        let case = json!({"kind": "consts-supplied-value", "source": src, "const": format!("P::A = {l:?}")});
+        let mut m: HashMap<String, HashMap<String, Literal>> = HashMap::new();
+        m.entry("P".into()).or_default().insert("A".into(), l.clone());
+        let is_bool = matches!(l, Literal::True | Literal::False);
+        match catch(|| garble_lang::compile_with_constants(src, subject::to_consts(m))) {
+            Err(p) => coll.push(Violation::new("C12", site, "rust-panic", "", case, p)),
+            Ok(Err(e)) => {
+                if is_bool {
+                    coll.push(Violation::new("C12", site, "well-typed-constant-refused", "", case, format!("{e:?}")));
+                }
+            }
+            Ok(Ok(gp)) => {
+                if !is_bool {
+                    coll.push(Violation::new("C12", site, "accepted-despite-missing-or-mistyped", "", case, format!("{l:?} is not a bool")));
+                    continue;
+                }
+                for x in [false, true] {
+                    cnt.evals.fetch_add(1, Ordering::Relaxed);
+                    let real = subject::eval(&gp.circuit, &[vec![x]]);
+                    let exp = vec![(*l == Literal::True) ^ x];
+                    if real != RealOutcome::Value(exp.clone()) {
+                        coll.push(Violation::new("C12", site.clone(), "differs-from-literal-substitution", format!("x={x}"), case.clone(), format!("expected {exp:?}, got {real:?}")));
+                    }
+                }
+            }
+        }
+    }
+}
+
 pub fn run(tier: Tier) -> i32 {
     let start = Instant::now();
     let budget = Budget::new(tier.pick(150.0, 2400.0));
@@ -732,6 +852,7 @@ pub fn run(tier: Tier) -> i32 {
         check_pair(j.t, &j.name, &j.sec, j.u, &j.ext, &cnt, &coll);
     });
     error_cases(&cnt, &coll);
+    supplied_value_menu(&cnt, &coll);
     literal_api_cases(&cnt, &coll);
     let sample = |i: usize| {
         let j = &jobs[i];
@@ -744,7 +865,7 @@ pub fn run(tier: Tier) -> i32 {
         coverage: json!({
             "evaluations": cnt.evals.load(Ordering::Relaxed) + cnt.error_cases.load(Ordering::Relaxed),
             "distinct_nontrivial": cnt.nontrivial.load(Ordering::Relaxed),
-            "rule": "const sections (external, literal, reference to an earlier const, min/max/+/- incl. nested, 1-3 declarations, two parties) for usize/u8/i8/u16/i64/bool x use templates (array type size, repeat size, single-array-parameter parties, loop count, value use, index, const-expression size) x ALL assignments of the externals over {0,1,2,3,MAX-1,MAX,MIN,-1} (sizes {0,1,2,3,5,MAX}); thorough additionally enumerates EVERY constant expression with <= 2 operators (min/max/+/-, nested either side, parenthesised) over the atoms {A = P::A, Q::B, 1, 2, MAX} as `const B = <expr>` for each type; differential oracle: the same program with the harness-evaluated values (wrapping arithmetic of the constant's type) substituted as literals must have the same party sizes, output width and outputs on every input; literal entry points (literal_arg, parse_arg, Evaluator::set_literal / run / into_literal) of identity programs whose parameter and return types nest const-sized arrays ([[u8;C];R], [(u8,[bool;C]);R], [S;R] with a const-sized field) for all R, C in 0..=3; failure space: every combination of {fine, missing, 6 wrongly typed literals} for 3 declared constants, with and without extra unknown constants; non-trivial = pair whose outputs take >= 2 distinct values",
+            "rule": "const sections (external, literal, reference to an earlier const, min/max/+/- incl. nested, 1-3 declarations, two parties) for usize/u8/i8/u16/i64/bool x use templates (array type size, repeat size, single-array-parameter parties, loop count, value use, index, const-expression size) x ALL assignments of the externals over {0,1,2,3,MAX-1,MAX,MIN,-1} (sizes {0,1,2,3,5,MAX}); thorough additionally enumerates EVERY constant expression with <= 2 operators (min/max/+/-, nested either side, parenthesised) over the atoms {A = P::A, Q::B, 1, 2, MAX} as `const B = <expr>` for each type; differential oracle: the same program with the harness-evaluated values (wrapping arithmetic of the constant's type) substituted as literals must have the same party sizes, output width and outputs on every input; literal entry points (literal_arg, parse_arg, Evaluator::set_literal / run / into_literal) of identity programs whose parameter and return types nest const-sized arrays ([[u8;C];R], [(u8,[bool;C]);R], [S;R] with a const-sized field) for all R, C in 0..=3; failure space: every combination of {fine, missing, 6 wrongly typed literals} for 3 declared constants, with and without extra unknown constants; supplied-value menu: every constant type (9 integer types, bool) x every literal {MIN-1, MIN, MIN+1, -1, 0, 1, MAX-1, MAX, MAX+1} of every number type, unspecified numbers, true/false/()/[true]: a literal of the constant's own type that is in range must be accepted, a literal that is not a value of the type must be refused, an accepted literal must behave as the written literal (constant bits and max(A, 0)); non-trivial = pair whose outputs take >= 2 distinct values",
             "samples": [sample(0), sample(jobs.len() / 2), sample(jobs.len() - 1)],
             "program_assignment_pairs": cnt.pairs.load(Ordering::Relaxed),
             "pairs_skipped_size_over_48": cnt.skipped_big.load(Ordering::Relaxed),
